@@ -415,14 +415,48 @@ def run_kernel(ctx, items, results):
 
 # ------------------------------------------------------------------------------------------ the check
 
+def number_tokens(ctx):
+    """_parse_number of the real client against the model on printed numerals: every writer format on extreme values,
+    and malformed tokens (underscores, exponents, signs, stray points and commas)"""
+    import logging
+    from geophires_x_client.geophires_x_result import GeophiresXResult
+    rnd = ctx.rng
+    g = object.__new__(GeophiresXResult)
+    g._logger = logging.getLogger('c10')
+    toks = ['N/A', '', '-', '.', '1.', '.5', '-.5', '+1.5', '1_000', '1__0', '_1', '1_', '1_000.5', '1._5', '1e5', '1.5e3', '1.5E+300', '1.5e-7',
+            '1.e2', '1,2,3', ',', '1,', '12,345.60', '--1', '+-1', '1.2.3', 'nan', 'inf', '-inf', '0x10', '1e', '1.0e+', '00012', '-0.00',
+            '-0', '007.50', '1\t', 'N/A ', 'n/a', '12a', '1.5f', '½', '1 2']
+    toks = [t for t in toks if all(ord(c) < 128 for c in t)]
+    for _ in range(ctx.n(300, 3000)):
+        x = rnd.choice([1, -1]) * rnd.choice([0.0, 1e-7, 0.004, 0.5, 7.25, 123.456, 98765.4321, 1.5e9, 3.25e13, 8.8e17]) * rnd.random()
+        toks.append(rnd.choice(['{:10.2f}', '{:,.2f}', '{:10.0f}', '{:10.4f}', '{:5.3f}', '{:10.4g}', '{:10.2E}', '{:.5f}', '{:,.0f}', '{:3.0f}']).format(x).strip())
+    toks = sorted(set(toks))
+    vals = [g._parse_number(t) for t in toks]
+    bad = fw.kernel_bools(ctx, 'numbers', ['Model.ResultParser'], [f'agree_val (parse_number {R.CS(t)}) ({R.ival(v)})' for t, v in zip(toks, vals)],
+                          open_scope='string_scope')
+    ctx.count('_parse_number', evaluations=len(toks), nontrivial_keys=[('shape', re.sub(r'\d', '9', t)) for t in toks])
+    for i in bad[:5]:
+        ctx.violate('corr', f'corr:number:{toks[i]}', f'Coq model of _parse_number and the client disagree on the token {toks[i]!r}',
+                    inp={'id': 'token', 'text': f'\n      Project NPV:      {toks[i]} MUSD\n', 'token': toks[i]}, observed=repr(vals[i]),
+                    expected='value of Model.ResultParser.parse_number (see replay)')
+
+
 def correspondence(ctx, proofs_ok=True):
+    import time
+    t0 = time.time()
+    lap = lambda what: (ctx.note(f'{what}: {time.time() - lap.t:.1f} s'), setattr(lap, 't', time.time()))
+    lap.t = t0
+    number_tokens(ctx)
+    lap('number tokens')
     fields, heads, names = c10_tables.client_tables()
     items = collect(ctx)
+    lap('collect (stored reports, simulations, synthetic)')
     texts = [it['text'] for it in items]
     from concurrent.futures import ThreadPoolExecutor
     with ThreadPoolExecutor(max_workers=len(SEEDS)) as ex:
         by_seed = dict(zip(SEEDS, ex.map(lambda s: R.parse_many(ctx, texts, s, workers=6), SEEDS)))
     results = by_seed[0]
+    lap('client on every report, 3 hash seeds')
     uv = unit_values()
     nfields = ncells = 0
     jcmp = []
@@ -466,8 +500,10 @@ def correspondence(ctx, proofs_ok=True):
     ctx.count('client-vs-tokenisation', fields_compared=nfields, table_cells_compared=ncells, json_quantities_compared=njson)
     for it in items[:2]:
         ctx.sample('reports', {'id': it['id'], 'chars': len(it['text'])})
+    lap('tokenisation oracle + json')
     # model vs client, inside Coq
     codes, failing, sel = run_kernel(ctx, items, results)
+    lap('kernel shards')
     ctx.count('model-vs-client', evaluations=len(sel) * (len(fields) + 8), reports=len(sel))
     for i in failing:
         it = items[i]
